@@ -249,6 +249,27 @@ def restricted_tag_types(sch, by_class):
     return res
 
 
+def wire_val(v):
+    """python value -> the runner's wire form (see coq/lib/PyValWire.v); None for anything else."""
+    import math
+    if v is None:
+        return "n"
+    if isinstance(v, bool):
+        return "b:1" if v else "b:0"
+    if isinstance(v, int) and type(v).__module__ in ("builtins", "pptx.util"):
+        return "i:%d" % v
+    if isinstance(v, float) and math.isfinite(v):
+        n, d = v.as_integer_ratio()
+        e = -(d.bit_length() - 1)
+        while n and n % 2 == 0:
+            n //= 2
+            e += 1
+        return "f:%d %d" % (n, e if n else 0)
+    if isinstance(v, str):
+        return "s:" + v
+    return None
+
+
 def probe_desc(st):
     """Claimed canonical behaviour of a simple-type class, found by probing; Coq proves it."""
     def tx(v):
@@ -391,6 +412,7 @@ def main():
             # a tag with several XSD types: a value must be valid for SOME candidate type
             lx = lexes[0] if len(lexes) == 1 else ("union", lexes)
             rows.append({"cls": cls.__name__, "tag": cands[0][0], "type": " | ".join(types), "attr": aname, "prop": pname,
+                         "default": wire_val(default),
                          "st": st.__name__, "kind": kind, "use": cands[0][2][1], "lex": lx, "lex_coq": lex_to_coq(lx),
                          "is_enum": inspect.isclass(st) and issubclass(st, BaseXmlEnum)})
     # used simple types must be translatable
